@@ -24,7 +24,7 @@ LEVEL = "exploration"
 RULE = (
     "one case = one seeded history (1-4 clients, 3-40 operations over a pool of 3-12 strings: parse with either "
     "parser, resolve, evaluate with yielding peers, in-place edits of previously returned trees at any depth, cache "
-    "floods of 200 or 1100 fresh strings) executed once under the simulated loop from cold caches; non-trivial iff at "
+    "floods of 200 or 1100 fresh strings, total evictions) executed once under the simulated loop from cold caches; non-trivial iff at "
     "least one string was parsed/resolved/evaluated again after a tree returned for it had been edited or after a "
     "flood (measured in the run); distinct = distinct event-log digests among the non-trivial cases"
 )
@@ -189,7 +189,10 @@ async def do_op(sim, request):
                 continue
             note_reuse(text)
             try:
-                outcome = {"ok": canon(await _evaluate(eval_kind, text))}
+                result = await _evaluate(eval_kind, text)
+                if eval_kind == "resolve":
+                    state["handles"].append((text, result))  # resolved trees are edited by callers as well
+                outcome = {"ok": canon(result)}
             except asyncio.CancelledError:
                 raise
             except (KeyboardInterrupt, SystemExit):
@@ -216,6 +219,13 @@ async def do_op(sim, request):
             state["flooded"] += op[1]
             sim.count_fault("F6_cache_flood")
             sim.probe("flood_strings", op[1])
+        elif kind == "X":
+            # total eviction at an arbitrary point of the history (what a full cache does to the oldest entry, done to
+            # all of them): the miss path runs again and the freed trees' addresses are reused
+            for cache in env.find_parse_caches():
+                cache.cache_clear()
+            state["flooded"] += 1024
+            sim.count_fault("F6_cache_evict_all")
         elif kind == "S":
             await asyncio.sleep(op[1])
     return "done"
@@ -241,6 +251,30 @@ def generate(seed, tier="quick"):
                 {"grammar": "ahb", "text": render_ahb(parts, rnd, "plain"),
                  "evals": ["ahb_unresolved", "ahb_resolved", "resolve"]}
             )
+    # time conditions (resolved only: their replacement trees are built by the resolver, not by the parsers)
+    if rnd.random() < 0.4:
+        for _ in range(rnd.randint(1, 2)):
+            ub = f"[UB{rnd.choice([1, 2, 3])}]"
+            other = f"[{rnd.choice(rc)}]"
+            text = rnd.choice([ub, f"{ub} U {other}", f"{other} O ({ub} U {other})", f"Muss {ub}", f"Soll {other} U {ub} Kann {ub}"])
+            pool.append({"grammar": "ahb" if text[0] in "MSK" else "cond", "text": text, "evals": ["resolve"]})
+    # near-duplicates: strings that differ from another pool string only in whitespace or spelling must not share a tree
+    for entry in list(pool):
+        if rnd.random() < 0.25 and " " in entry["text"]:
+            variant = entry["text"]
+            kind = rnd.choice(["double", "tab", "case", "symbol", "mark"])
+            if kind == "double":
+                variant = variant.replace(" ", "  ", rnd.randint(1, 3))
+            elif kind == "tab":
+                variant = variant.replace(" ", "\t", 1)
+            elif kind == "case":
+                variant = variant.replace(" U ", " u ").replace(" O ", " o ")
+            elif kind == "symbol":
+                variant = variant.replace(" U ", " ∧ ").replace(" O ", " ∨ ").replace(" X ", " ⊻ ")
+            elif kind == "mark":
+                variant = variant.replace("Muss ", "M ").replace("Soll ", "S ").replace("Kann ", "K ")
+            if variant != entry["text"]:
+                pool.append(dict(entry, text=variant))
     n_clients = rnd.choice([1, 1, 2, 2, 3, 4])
     total_ops = rnd.randint(3, 40)
     flood = rnd.random() < (0.04 if tier == "quick" else 0.06)
@@ -255,13 +289,18 @@ def generate(seed, tier="quick"):
             elif roll < 0.42:
                 ops.append(["R", "resolve", target])
             elif roll < 0.62:
-                ops.append(["E", rnd.choice(pool[target]["evals"][:2] if pool[target]["grammar"] == "ahb"
-                                            else [e for e in pool[target]["evals"] if e != "resolve"]), target])
+                choices = [e for e in pool[target]["evals"] if e != "resolve"]
+                if not choices:
+                    ops.append(["R", "resolve", target])
+                else:
+                    ops.append(["E", rnd.choice(choices[:2] if pool[target]["grammar"] == "ahb" else choices), target])
             elif roll < 0.90:
                 path = [rnd.randrange(3) for _ in range(rnd.choice([0, 0, 1, 1, 2, 3]))]
                 ops.append(["M", rnd.randrange(64), path, rnd.choice(EDITS)])
-            else:
+            elif roll < 0.96:
                 ops.append(["S", rnd.choice([1, 2, 5])])
+            else:
+                ops.append(["X"])
         if flood and index == 0:
             ops.insert(rnd.randrange(len(ops) + 1), ["F", rnd.choice([200, 1100])])
         cid = f"c{index}"
